@@ -988,6 +988,24 @@ def gen_spec(rng, lib, size="small", collide=False, shape=None):
     return spec
 
 
+def unc_kind(p):
+    """coarse class of the per-value uncertainties of an old property (evidence only)"""
+    us = [_tokf(r[1]) for r in p["rows"]]
+    if not us:
+        return "empty"
+    if any(u != u for u in us):
+        return "nan"
+    if any(u in (float("inf"), float("-inf")) for u in us):
+        return "inf"
+    if all(u == 0 for u in us):
+        return "zero"
+    if len(set(us)) == 1:
+        return "same"
+    if np.allclose(us, us[0]):
+        return "distinct-but-close"
+    return "distinct"
+
+
 def iter_props(spec):
     def rec(s, comps):
         for p in s["props"]:
@@ -1240,7 +1258,7 @@ def gen_cases(ctx):
     rng = ctx.rng
     lib = lib_version()
     cases = []
-    n_small, n_large, n_tiny = ctx.budget((34, 3, 14), (300, 40, 120))
+    n_small, n_large, n_tiny = ctx.budget((34, 3, 14), (240, 32, 100))
     for _ in range(n_tiny):
         cases.append({"spec": gen_spec(rng, lib, "tiny", shape=rng.choice(["old", "old", "mixed", "mid", None])),
                       "lib": lib})
@@ -1291,6 +1309,13 @@ def correspondence(ctx):
         dist["inside_cuts"] = dist.get("inside_cuts", 0) + info.get("inside", 0)
         v = ".".join(map(str, c["spec"]["version"]))
         dist["shape"][v] = dist["shape"].get(v, 0) + 1
+        for _, _, pp in iter_props(c["spec"]):
+            if pp["kind"] == "old":
+                uk = dist.setdefault("uncertainty_kinds", {})
+                uk[unc_kind(pp)] = uk.get(unc_kind(pp), 0) + 1
+                nv = dist.setdefault("values_per_old_property", {})
+                key = str(min(len(pp["rows"]), 3)) + ("+" if len(pp["rows"]) >= 3 else "")
+                nv[key] = nv.get(key, 0) + 1
         if info.get("steps", 0) > 1:
             seen.add(core.sha(core.canon(c["spec"])))
         if len(samples) < 3 and info.get("steps", 0) in (3, 4, 5):
@@ -1683,7 +1708,7 @@ def oracle(ctx, broken, hints):
     # the value-dependent decisions of one conversion, deterministically (uninterrupted + two interruption points)
     for g in grid_specs(lib):
         specs.append((g, "few"))
-    n_tiny, n_small, n_large = (60, 60, 12) if (broken or not ctx.quick()) else (10, 8, 1)
+    n_tiny, n_small, n_large = (50, 50, 10) if (broken or not ctx.quick()) else (10, 8, 1)
     for _ in range(n_tiny):
         specs.append((gen_spec(rng, lib, "tiny", shape=rng.choice(["old", "old", "mid", "mixed"])), "all"))
     for _ in range(n_small):
